@@ -808,7 +808,14 @@ class spawn(SpawnBase):
         '''
 
         while data != b'' and self.isalive():
-            n = os.write(fd, data)
+            try:
+                n = os.write(fd, data)
+            except OSError as err:
+                if err.args[0] == errno.EIO:
+                    # The child went away after the isalive() check: there
+                    # is nobody left to deliver the rest to.
+                    break
+                raise
             data = data[n:]
 
     def __interact_read(self, fd):
